@@ -484,6 +484,7 @@ def rule_g(rep: Report, idx: SourceIndex) -> None:
 	scratch = Report('C02', rep.tier)
 	nm, gm = NodeModel(idx), GrammarModel()
 	c02.rule_b(scratch, idx, nm, gm)
+	boundary = rule_load_boundary(rep, idx)
 	n = 0
 	for rule in scratch.rules:
 		if rule.id != 'C02/selector-index-exists':
@@ -494,7 +495,10 @@ def rule_g(rep: Report, idx: SourceIndex) -> None:
 			if '[' not in o.key:
 				continue
 			n += 1
-			if o.status == 'violated':
+			if o.status == 'violated' and boundary:
+				# the raw IndexError is raised while loading (ExpandModules) or inside a handler (Procedure.__emit): both boundaries convert it
+				r.ok(o.key, (o.file, o.line), message='unguarded subscript; the IndexError is converted at the Modules.load boundary (C07/load-boundary-converts) or by Procedure.__emit')
+			elif o.status == 'violated':
 				r.violate(o.key, (o.file, o.line), o.message.replace('NodeNotFound/IndexError', 'a raw IndexError (not an Errors.* class)'), o.fragment)
 			else:
 				r.ok(o.key, (o.file, o.line))
@@ -805,3 +809,45 @@ def rule_l(rep: Report, idx: SourceIndex) -> None:
 				r.check(bool(seen_tests) or bool(counters), key, (rel, lp.lineno), f'{q} walks the base classes with a work-list (`{unparse(refills[0])[:70]}`) and never checks whether a class was visited before: for a cyclic hierarchy (`class A(B)` / `class B(A)`) and a looked-up member that no class on the cycle declares the loop never ends — no error is raised, the interactive loop hangs (the recursive form of such a walk ends in RecursionError -> Errors.Fatal)', unparse(lp.test))
 	if n_loops == 0:
 		r.ok('no-worklist-over-inherits', None, message='no while-loop of the semantics layer refills its work-list from .inherits (the walks are recursive)')
+
+
+# ---- (m) the loading boundary ------------------------------------------------------------------------------------------------------
+
+def rule_load_boundary(rep: Report, idx: SourceIndex) -> bool:
+	"""Loading a module runs the preprocessors OUTSIDE Procedure: ExpandModules reads node properties, StoreSymbols exports the table and thereby forces the
+	lazily resolved types (`a, b, c = (1, 2)` -> IndexError in resolve_right_to_left, `a = b; b = a` -> RecursionError, `x: dict[str] = {}` ->
+	IndexError in DictType.primary_type). Nothing below converts these; Modules.load is the one place every load passes through. Its handler must turn
+	anything that is not an Errors.Error into one (and still discard the half-loaded module, C04)."""
+	from vlib.match import nodes
+	r = rep.rule('C07/load-boundary-converts', 'in Modules.load the dependency load and the preprocessing lie in a try that re-raises Errors.Error unchanged and converts every other Exception into an Errors.* exception', floor=2)
+	m = idx.mod('rogw/tranp/module/modules.py')
+	f = m.func('Modules.load')
+	rep.consulted(m.relpath)
+	if f is None:
+		r.skip('Modules.load', (m.relpath, 1), 'Modules.load vanished')
+		return False
+	pm_ = parent_map(f.node)
+	sites = [c_ for c_ in nodes(f.node, ast.Call) if isinstance(c_.func, ast.Attribute) and c_.func.attr in ('preprocess', '__load_dependencies') or (isinstance(c_.func, ast.Attribute) and c_.func.attr.endswith('__load_dependencies'))]
+	if not sites:
+		r.skip('Modules.load', f.where, 'Modules.load no longer calls __load_dependencies / preprocess')
+		return False
+	all_ok = True
+	for c_ in sites:
+		ok_ = False
+		raw = None
+		for t in enclosing_tries(c_, pm_):
+			for h in t.handlers:
+				if not (set(handler_types(h)) & {'Exception', 'BaseException'} or h.type is None):
+					continue
+				raised = [raised_name(x) for x in handler_raises(h)]
+				if raised and all(_is_errors_name(x) for x in raised):
+					ok_ = True
+				else:
+					raw = h
+		key = f'Modules.load:{c_.func.attr.lstrip("_")}'
+		if ok_:
+			r.ok(key, (m.relpath, c_.lineno))
+		else:
+			all_ok = False
+			r.violate(key, (m.relpath, c_.lineno), f'`{unparse(c_)[:60]}` is not inside a try whose `except Exception` handler raises an Errors.* exception{" (the handler at line %d re-raises the exception as it is)" % raw.lineno if raw is not None else ""}: the preprocessors resolve symbols outside Procedure, so `def f(): a, b, c = (1, 2)` in a module on disk (symbol cache enabled) ends the run with a raw IndexError from resolve_right_to_left, `a = b` / `b = a` with RecursionError — not with an exception of the application hierarchy', unparse(c_))
+	return all_ok
